@@ -97,6 +97,50 @@ def run(chk):
         if i % 40 == 0:
             chk.sample({"source": src, "twin": twin, "args": args, "script": script, "gen_script": gscript})
     chk.cov["oracle"]["twin"] = stats
+    equal_but_different(chk, rng)
+
+
+ESRC = '''
+def f(n, items, flag):
+    n = float(n)
+    k = flag > 0
+    k = int(k)
+    items = list(items)
+    z = 0
+    z = False
+    z = 0.0
+    return (n, k, items, z)
+'''
+
+
+def equal_but_different(chk, rng):
+    """a variable rebound to a value that is `==` to the one it had — another type, another object: the event
+    carries the value that WAS bound (compared by type, repr and identity, not by equality)"""
+    import ptera
+    n = 12 if chk.tier == "quick" else 200
+    for i in range(n):
+        mod = pyprog.make_module(ESRC, "verif_c02_eq")
+        arg_n, arg_items, arg_flag = rng.randrange(0, 5), [rng.randrange(3) for _ in range(rng.randrange(0, 3))], rng.randrange(0, 3)
+        focus = rng.choice(["n", "k", "items", "z"])
+        ctx = rng.choice([[], ["n"], ["z"]]) if focus not in ("n", "z") else []
+        sel = "f(%s) > %s" % (", ".join(ctx), focus) if ctx else "f > %s" % focus
+        with ptera.probing(sel, env=mod.__dict__) as pr:
+            evs = pr.accum()
+            ret = mod.f(arg_n, arg_items, arg_flag)
+        # the values a twin would log for the focus, in order
+        want = {"n": [arg_n, float(arg_n)], "k": [arg_flag > 0, int(arg_flag > 0)],
+                "items": [arg_items, ret[2]], "z": [0, False, 0.0]}[focus]
+        got = [e[focus] for e in evs]
+        same = len(got) == len(want) and all(type(g) is type(w) and repr(g) == repr(w) for g, w in zip(got, want))
+        if focus == "items" and same:
+            same = got[0] is arg_items and got[1] is ret[2]
+        chk.count(("equal-but-different", sel, arg_n, tuple(arg_items), arg_flag), nontrivial=True)
+        chk.dist("equal-but-different values")
+        if not same:
+            chk.violation("oracle", "%s: the bindings of %s carry %r, the values bound were %r (compared by type, repr "
+                          "and identity)" % (sel, focus, got, want),
+                          {"source": ESRC, "selector": sel, "args": [arg_n, arg_items, arg_flag]})
+        pyprog.drop_module(mod)
 
 
 def replay(chk, path):
